@@ -245,14 +245,14 @@ def gen_cases(chk, tmp):
     if not r.ok or not r.replays:
         raise vlib.ToolError("replay generation failed: " + (r.violation or r.out[-500:]))
     replays = r.replays
-    cap = 1800 if quick else 24000
+    cap = 1800 if quick else 12000
     total_paths = len(replays)
     if len(replays) > cap:
         replays = rng.sample(replays, cap)
     for rp in replays:
         cases.append({"src": gen_src_of_shape(rp[0]["orig"]), "steps": finish_history(rp[1:]), "kind": "tlc-path"})
     n1 = len(cases)
-    nsim = 200 if quick else 4000
+    nsim = 200 if quick else 2000
     rs = vlib.run_tlc("MC_Lazy", "MC_Lazy_sim.cfg", workers=1, coverage=False, simulate=f"num={nsim}",
                       extra=["-depth", "12", "-seed", str(chk.seed)], timeout=3000)
     if rs.rc != 0 or rs.violation or not rs.replays:
@@ -323,9 +323,23 @@ def describe(case, ev, detail):
     return f"{json.dumps(case['steps'][0]['src'])[:160]} step {json.dumps(keep)}: {detail}"
 
 
-def judge(chk, cases, tmp):
+def judge(chk, cases, tmp, batch=1200):
+    """Run and judge the histories in batches (events carry every sheet's view twice and both packages: tens of
+    thousands of histories do not fit in memory at once).  Returns the events of the first batch."""
     srcs = Sources(tmp)
     srcs.prepare([c["steps"][0]["src"] for c in cases])
+    first_events = None
+    tot = [0.0, 0.0, 0.0]
+    for b0 in range(0, len(cases), batch):
+        events = judge_batch(chk, cases[b0:b0 + batch], srcs, tmp, tot)
+        if first_events is None:
+            first_events = events
+    vlib.log(f"[c11] {len(cases)} histories: driver {tot[0]:.1f}s, package decoding {tot[1]:.1f}s, "
+             f"TLC trace validation {tot[2]:.1f}s")
+    return first_events
+
+
+def judge_batch(chk, cases, srcs, tmp, tot):
     dcases = []
     for c in cases:
         d = {"case": c["case"], "tmp": tmp,
@@ -364,15 +378,16 @@ def judge(chk, cases, tmp):
                         os.remove(p)
     t2 = time.time()
     out = vlib.validate("Trace_Lazy", "Trace_Lazy.cfg", events, chk.open_ids, "c11", chunk_events=1500)
-    vlib.log(f"[c11] {len(cases)} histories: driver {t1 - t0:.1f}s, package decoding {t2 - t1:.1f}s, "
-             f"TLC trace validation {time.time() - t2:.1f}s")
+    tot[0] += t1 - t0
+    tot[1] += t2 - t1
+    tot[2] += time.time() - t2
     first = {}
     for ci, off, detail in out["mismatch"]:
         if ci not in first or off < first[ci][0]:
             first[ci] = (off, detail)
     for ci, (off, detail) in first.items():
         if re.match(r'^<<\s*"gen"', detail):
-            raise vlib.ToolError(f"generator produced a step this check cannot judge (case {ci}: "
+            raise vlib.ToolError(f"generator produced a step this check cannot judge (case {cases[ci]['case']}: "
                                  f"{json.dumps(cases[ci]['steps'])[:600]}, step {off}): {detail}")
     chk.process_validation(out, cases, events, "lazy", describe)
     return events
